@@ -52,6 +52,10 @@ type EtcdStore struct {
 	available int32
 	lastError atomic.Value // stores etcdError
 	persistMu sync.Mutex   // serializes snapshot read/write to avoid out-of-order etcd puts
+	// snapshotRev is the etcd revision of the last snapshot read (guarded by
+	// persistMu); the watcher resumes right after it so that no update between
+	// a read and the start of the watch is missed.
+	snapshotRev int64
 }
 
 func (s *EtcdStore) EtcdClient() *clientv3.Client {
@@ -371,35 +375,36 @@ func (s *EtcdStore) UpdateTopicConfig(ctx context.Context, cfg *metadatapb.Topic
 
 // CreatePartitions expands a topic and writes new partition state entries.
 func (s *EtcdStore) CreatePartitions(ctx context.Context, topic string, partitionCount int32) error {
-	meta, err := s.metadata.Metadata(ctx, []string{topic})
+	var newPartitions []protocol.MetadataPartition
+	err := s.updateSnapshot(ctx, func() error {
+		meta, err := s.metadata.Metadata(ctx, []string{topic})
+		if err != nil {
+			return err
+		}
+		if len(meta.Topics) == 0 || meta.Topics[0].ErrorCode != 0 {
+			return ErrUnknownTopic
+		}
+		current := int32(len(meta.Topics[0].Partitions))
+		if partitionCount <= current {
+			return ErrInvalidTopic
+		}
+		if err := s.metadata.CreatePartitions(ctx, topic, partitionCount); err != nil {
+			return err
+		}
+		updated, err := s.metadata.Metadata(ctx, []string{topic})
+		if err != nil {
+			return err
+		}
+		if len(updated.Topics) == 0 || updated.Topics[0].ErrorCode != 0 {
+			return ErrUnknownTopic
+		}
+		newPartitions = updated.Topics[0].Partitions[current:partitionCount]
+		if int32(len(newPartitions)) != partitionCount-current {
+			return fmt.Errorf("metadata: expected %d new partitions, got %d", partitionCount-current, len(newPartitions))
+		}
+		return nil
+	})
 	if err != nil {
-		return err
-	}
-	if len(meta.Topics) == 0 || meta.Topics[0].ErrorCode != 0 {
-		return ErrUnknownTopic
-	}
-	current := int32(len(meta.Topics[0].Partitions))
-	if partitionCount <= current {
-		return ErrInvalidTopic
-	}
-	if err := s.metadata.CreatePartitions(ctx, topic, partitionCount); err != nil {
-		return err
-	}
-	// Read new partition metadata before persisting. The snapshot watcher can
-	// refresh in-memory state from etcd while persistSnapshot runs, so a later
-	// Metadata call may see a stale partition count and panic on index access.
-	updated, err := s.metadata.Metadata(ctx, []string{topic})
-	if err != nil {
-		return err
-	}
-	if len(updated.Topics) == 0 || updated.Topics[0].ErrorCode != 0 {
-		return ErrUnknownTopic
-	}
-	newPartitions := updated.Topics[0].Partitions[current:partitionCount]
-	if int32(len(newPartitions)) != partitionCount-current {
-		return fmt.Errorf("metadata: expected %d new partitions, got %d", partitionCount-current, len(newPartitions))
-	}
-	if err := s.persistSnapshot(ctx); err != nil {
 		return err
 	}
 	for _, part := range newPartitions {
@@ -432,14 +437,12 @@ func (s *EtcdStore) CreatePartitions(ctx context.Context, topic string, partitio
 // CreateTopic currently updates only the in-memory snapshot; the operator is still responsible
 // for reconciling durable topic configuration into etcd/S3.
 func (s *EtcdStore) CreateTopic(ctx context.Context, spec TopicSpec) (*protocol.MetadataTopic, error) {
-	s.persistMu.Lock()
-	defer s.persistMu.Unlock()
-
-	topic, err := s.metadata.CreateTopic(ctx, spec)
+	var topic *protocol.MetadataTopic
+	err := s.updateSnapshot(ctx, func() (err error) {
+		topic, err = s.metadata.CreateTopic(ctx, spec)
+		return err
+	})
 	if err != nil {
-		return nil, err
-	}
-	if err := s.persistSnapshotLocked(ctx); err != nil {
 		return nil, err
 	}
 	return topic, nil
@@ -467,35 +470,87 @@ func (s *EtcdStore) partitionExists(ctx context.Context, topic string, partition
 
 // DeleteTopic updates the local snapshot so admin APIs behave consistently.
 func (s *EtcdStore) DeleteTopic(ctx context.Context, name string) error {
-	s.persistMu.Lock()
-	defer s.persistMu.Unlock()
-
-	metaCtx, cancel := context.WithTimeout(ctx, 3*time.Second)
-	defer cancel()
-	state, err := s.metadata.Metadata(metaCtx, []string{name})
-	if err != nil {
-		return err
-	}
-	var found bool
-	for _, topic := range state.Topics {
-		if *topic.Topic == name {
-			found = true
-			break
+	err := s.updateSnapshot(ctx, func() error {
+		metaCtx, cancel := context.WithTimeout(ctx, 3*time.Second)
+		defer cancel()
+		state, err := s.metadata.Metadata(metaCtx, []string{name})
+		if err != nil {
+			return err
 		}
-	}
-	if !found {
-		return ErrUnknownTopic
-	}
-	if err := s.metadata.DeleteTopic(ctx, name); err != nil {
+		var found bool
+		for _, topic := range state.Topics {
+			if *topic.Topic == name && topic.ErrorCode == 0 {
+				found = true
+				break
+			}
+		}
+		if !found {
+			return ErrUnknownTopic
+		}
+		return s.metadata.DeleteTopic(ctx, name)
+	})
+	if err != nil {
 		return err
 	}
 	if err := s.deleteTopicOffsets(ctx, name); err != nil {
 		return err
 	}
-	if err := s.deleteConsumerOffsets(ctx, name); err != nil {
-		return err
+	return s.deleteConsumerOffsets(ctx, name)
+}
+
+// updateSnapshot applies a change to the cluster metadata and publishes it.
+// The snapshot key is shared by every broker and the operator, and each holds
+// only a cached copy: writing the local copy back blindly would undo whatever
+// another writer added since the copy was taken (a topic it created, partitions
+// it added). So the change is applied to the snapshot as it is in etcd now, and
+// written only if the key has not changed in between; otherwise it is retried
+// on the newer snapshot.
+func (s *EtcdStore) updateSnapshot(ctx context.Context, apply func() error) error {
+	s.persistMu.Lock()
+	defer s.persistMu.Unlock()
+	const maxAttempts = 5
+	for attempt := 1; ; attempt++ {
+		getCtx, cancel := context.WithTimeout(ctx, 5*time.Second)
+		resp, err := s.client.Get(getCtx, snapshotKey())
+		cancel()
+		s.recordEtcdResult(err)
+		if err != nil {
+			return err
+		}
+		unchanged := clientv3.Compare(clientv3.Version(snapshotKey()), "=", 0)
+		if len(resp.Kvs) > 0 {
+			var snapshot ClusterMetadata
+			if err := json.Unmarshal(resp.Kvs[0].Value, &snapshot); err != nil {
+				return err
+			}
+			s.metadata.Update(snapshot)
+			unchanged = clientv3.Compare(clientv3.ModRevision(snapshotKey()), "=", resp.Kvs[0].ModRevision)
+		}
+		if err := apply(); err != nil {
+			return err
+		}
+		state, err := s.metadata.Metadata(context.Background(), nil)
+		if err != nil {
+			return err
+		}
+		payload, err := json.Marshal(state)
+		if err != nil {
+			return err
+		}
+		putCtx, cancel := context.WithTimeout(ctx, 5*time.Second)
+		txn, err := s.client.Txn(putCtx).If(unchanged).Then(clientv3.OpPut(snapshotKey(), string(payload))).Commit()
+		cancel()
+		s.recordEtcdResult(err)
+		if err != nil {
+			return err
+		}
+		if txn.Succeeded {
+			return nil
+		}
+		if attempt >= maxAttempts {
+			return fmt.Errorf("metadata snapshot kept changing: gave up after %d attempts", attempt)
+		}
 	}
-	return s.persistSnapshotLocked(ctx)
 }
 
 func (s *EtcdStore) startWatchers() {
@@ -507,7 +562,13 @@ func (s *EtcdStore) startWatchers() {
 
 func (s *EtcdStore) watchSnapshot(ctx context.Context) {
 	for {
-		watchChan := s.client.Watch(ctx, snapshotKey(), clientv3.WithPrefix())
+		opts := []clientv3.OpOption{clientv3.WithPrefix()}
+		s.persistMu.Lock()
+		if s.snapshotRev > 0 {
+			opts = append(opts, clientv3.WithRev(s.snapshotRev+1))
+		}
+		s.persistMu.Unlock()
+		watchChan := s.client.Watch(ctx, snapshotKey(), opts...)
 		for resp := range watchChan {
 			if resp.Err() != nil {
 				continue
@@ -541,6 +602,9 @@ func (s *EtcdStore) refreshSnapshot(ctx context.Context) error {
 		return err
 	}
 	s.recordEtcdResult(nil)
+	if resp.Header != nil && resp.Header.Revision > s.snapshotRev {
+		s.snapshotRev = resp.Header.Revision
+	}
 	if len(resp.Kvs) == 0 {
 		return nil
 	}
@@ -554,28 +618,6 @@ func (s *EtcdStore) refreshSnapshot(ctx context.Context) error {
 
 func snapshotKey() string {
 	return "/kafscale/metadata/snapshot"
-}
-
-func (s *EtcdStore) persistSnapshot(ctx context.Context) error {
-	s.persistMu.Lock()
-	defer s.persistMu.Unlock()
-	return s.persistSnapshotLocked(ctx)
-}
-
-func (s *EtcdStore) persistSnapshotLocked(ctx context.Context) error {
-	state, err := s.metadata.Metadata(context.Background(), nil)
-	if err != nil {
-		return err
-	}
-	payload, err := json.Marshal(state)
-	if err != nil {
-		return err
-	}
-	putCtx, cancel := context.WithTimeout(ctx, 5*time.Second)
-	defer cancel()
-	_, err = s.client.Put(putCtx, snapshotKey(), string(payload))
-	s.recordEtcdResult(err)
-	return err
 }
 
 func (s *EtcdStore) deleteTopicOffsets(ctx context.Context, topic string) error {
